@@ -5,14 +5,15 @@
    (exclusive, released by unlock/close) is the definition of the Lock / Unlock
    steps — the OS is modelled, not verified.  A store file's content is abstracted
    to the list of "markers" of the commits it contains. *)
-Require Import Base.
+Require Import Base Extracted.
 
-Inductive act := ALock | ARead (f : nat) | AWrite (f : nat) | AUnlock.
-
-(* Store::acquire_offline reads config (0), audits (1), imports (2) under the lock;
-   Store::commit writes audits, config, imports; the lock is dropped afterwards *)
-Definition writer_prog : list act := [ALock; ARead 0; ARead 1; ARead 2; AWrite 1; AWrite 0; AWrite 2; AUnlock].
-Definition reader_prog : list act := [ALock; ARead 0; ARead 1; ARead 2; AUnlock].
+(* The action lists are read from the source by the translator (Extracted.v):
+   Store::acquire_offline takes the lock, then reads config (0), audits (1), imports (2);
+   Store::commit writes audits, config, imports and then lets the StoreLock die.
+   A committing invocation runs both; a reader (check, suggest, ... or any invocation
+   that fails before commit) drops the Store after acquiring it. *)
+Definition writer_prog : list act := STORE_ACQUIRE_ACTS ++ STORE_COMMIT_ACTS.
+Definition reader_prog : list act := STORE_ACQUIRE_ACTS ++ [AUnlock].
 Definition prog_of (role : nat -> bool) (p : nat) : list act := if role p then writer_prog else reader_prog.
 
 (* a process: how many actions of its program it has executed, and what it read *)
@@ -36,7 +37,10 @@ Definition step (role : nat -> bool) (s : st) (p : nat) : st :=
   | Some ALock =>
       match holder s with
       | None => {| files := files s; holder := Some p; procs := adv (snap q); log := log s |}
-      | Some _ => s
+      | Some _ =>
+          (* an exclusive flock blocks; anything weaker lets the process through without ownership *)
+          if STORE_LOCK_EXCLUSIVE then s
+          else {| files := files s; holder := holder s; procs := adv (snap q); log := log s |}
       end
   | Some (ARead f) => {| files := files s; holder := holder s; procs := adv (updf (snap q) f (files s f)); log := log s |}
   | Some (AWrite f) => {| files := updf (files s) f (snap q f ++ [p]); holder := holder s; procs := adv (snap q); log := log s |}
